@@ -128,8 +128,15 @@ func init() {
 		if a[1] == "" {
 			return []string{""}
 		}
-		for _, op := range strings.Split(a[1], "&") {
+		for opIdx, op := range strings.Split(a[1], "&") {
 			f := strings.Split(op, "~")
+			// data of length zero reaches the library as nil in one step and as an empty slice in the next
+			unhx := func(s string) []byte {
+				if s == "" && opIdx%2 == 1 {
+					return nil
+				}
+				return unhx(s)
+			}
 			ok, ans := true, false
 			switch f[0] {
 			case "A":
